@@ -81,6 +81,9 @@ def run(ctx):
         ctx.check(not bad, "shuffle", tag + "|no-reorder", ctx.loc(f), "no call after the shuffle can reorder or drop batch elements",
                   "after the shuffle the batch is passed to %s" % ", ".join(x.name for x in bad))
         chain = [n for n in s.chain if n in ADAPTERS]
+        s.iter_chain(s.loop_next)
+        if chain == ["zip"] and len(s.get_time) == 1 and s.zip_clock(s.get_time[0].result) is not None:
+            chain = []        # paired with the unbounded clock range `start..`: order and length of the batch untouched
         ctx.check(not chain, "shuffle", tag + "|no-adapter", s.loop_next.loc(), "the loop consumes the shuffled batch front to back (no reordering adapter)",
                   "the loop iterates through %s" % chain)
         # other randomness in step
